@@ -518,6 +518,13 @@ fn run_ty<T: Elem>(digits: &[i128], op: i128, prior: &[i128]) -> Option<Vec<i128
     with_lengths!(dispatch_digits!(T, digits, op, prior,))
 }
 
+/// page-sized elements: only the short lengths are monomorphised (in an optimised build the dispatch
+/// function would otherwise reserve stack for every length of a 5000-byte element at once)
+#[inline(never)]
+fn run_ty_short<T: Elem>(digits: &[i128], op: i128, prior: &[i128]) -> Option<Vec<i128>> {
+    dispatch_digits!(T, digits, op, prior, [U0, U1, U2, U3, U4])
+}
+
 fn run_case(case: &[i128]) -> Vec<i128> {
     let (op, ty, nd) = (case[0], case[1], case[2] as usize);
     let digits = &case[3..3 + nd];
@@ -542,7 +549,7 @@ fn run_case(case: &[i128]) -> Vec<i128> {
         7 => run_ty::<GenericArray<W, U3>>(digits, op, prior),
         8 => run_ty::<KeepBig>(digits, op, prior),
         9 => run_ty::<Inv>(digits, op, prior),
-        10 => run_ty::<Page>(digits, op, prior),
+        10 => run_ty_short::<Page>(digits, op, prior),
         _ => panic!("bad element type {}", ty),
     };
     r.expect("length type not monomorphised")
@@ -587,7 +594,7 @@ fn main() {
         let n = value(ds);
         let shape = if ds.last() == Some(&0) { "nonnormalised" } else { "normalised" };
         for ty in 0..NTY {
-            if ty == 10 && n > 4 {
+            if ty == 10 && (n > 4 || ds.last() == Some(&0)) {
                 continue; // 5000-byte elements: small arrays only (they live on the stack)
             }
             for op in 1..=3 {
